@@ -3,13 +3,16 @@
 P (all byte values, all positions): BitWriter.write appends exactly one bit to the bit stream and keeps the
    representation invariant of the writer; BitReader.read returns the bit at the current position and
    advances by one, raising BitIOError exactly at the end; write_number(n, k) for k in {0,1,2,3,7,8,9,12} on an arbitrary writer state rejects exactly the numbers
-   that do not fit and otherwise appends the k little-endian bits; the gate-type code tables are mutually inverse and _get_arity is what the decoder reads.
+   that do not fit and otherwise appends the k little-endian bits; read_number(k) for the same widths on an arbitrary reader state returns the next k bits
+   as a little-endian number, advances by k and raises exactly when fewer than k bits are left; the two contracts compose to read_number(write_number(n, k)) = n;
+   the same two contracts for EVERY width k >= 0 (loop invariants over the abstract bit-stream view, write() used through its proved stream contract, ghost spec function RS); the gate-type code tables are mutually inverse and _get_arity is what the decoder reads.
 B: whole bit strings / numbers, dictionary records, circuit round trips, database files (vlib/bounded/C16.py)."""
 import z3
 
 from .. import env
 from ..pyvc.values import Sym, Obj, VList, Native, Unsupported
 from ..pyvc.interp import Model, _simp
+from ..pyvc.lib import Pow2
 from ..pyvc.prove import Prover, Contract
 from .common import new_interp, finish_refuted, canary, STD_TRUSTED, STD_ASSUME, run_bounded
 
@@ -175,6 +178,305 @@ class WriteNumber(Write):
             yield ('no-other-raise', z3.BoolVal(False), {'raised': nme, 'witness': 'raises-' + nme})
 
 
+class ReadNumber(Read):
+    """read_number(k) for concrete k on an ARBITRARY reader state: with at least k bits left it returns the number whose
+    little-endian bits are the next k bits of the stream and advances by exactly k bits; it raises BitIOError exactly
+    when fewer than k bits are left"""
+    qualname = 'BitReader.read_number'
+
+    def __init__(self, bits):
+        self.bits = bits
+        self.name = f'BitReader.read_number/{bits}bits'
+
+    def setup(self, it, ctx):
+        args, kw, st = Read.setup(self, it, ctx)
+        return [args[0], self.bits], {}, st
+
+    @staticmethod
+    def stream_bit(ef, t):
+        """bit number t (0-based) of the byte stream ef: bit t % 8 of byte t // 8"""
+        return bitof(ef(t / 8), t % 8)
+
+    def post(self, it, ctx, result, st):
+        o, ef, bp, pos, n = st['o'], st['ef'], st['bp'], st['pos'], st['n']
+        k = self.bits
+        r = it.int_term(result)
+        T0 = 8 * bp + pos
+        bp1, pos1 = it.int_term(o.fields['_byte_pos']), it.int_term(o.fields['_bit_pos'])
+        yield ('value-is-the-next-k-bits-little-endian', r == z3.Sum([self.stream_bit(ef, T0 + i) * (2 ** i) for i in range(k)] + [z3.IntVal(0)]), {'witness': 'number-bits'})
+        yield ('advances-by-k', z3.And(8 * bp1 + pos1 == T0 + k, pos1 >= 0, pos1 <= 7))
+        if k > 0:          # (k = 0 reads nothing, so nothing is known about the position)
+            yield ('only-inside-data', T0 + k <= 8 * n)
+        yield ('result-is-int-in-range', z3.And(r >= 0, r < 2 ** k))
+
+    def on_raise(self, it, ctx, exc, st):
+        nme = exc.cls.name if isinstance(exc, Obj) else repr(exc)
+        if nme == 'BitIOError':
+            yield ('raises-only-when-fewer-than-k-bits-left', 8 * st['bp'] + st['pos'] + self.bits > 8 * st['n'], {'raised': nme})
+        else:
+            yield ('no-other-raise', z3.BoolVal(False), {'raised': nme, 'witness': 'raises-' + nme})
+
+
+# ---------------------------------------------------------------- every width (loop invariants) ----------
+def sbit(ef, t):
+    """bit number t >= 0 of the byte stream ef (abstract view of the writer / reader data): bit t % 8 of byte t // 8"""
+    return bitof(ef(t / 8), t % 8)
+
+
+def writer_ri(n, ef, pos, i):
+    """representation invariant of BitWriter over the byte index variable i"""
+    out = [('shape', z3.And(n >= 0, pos >= 1, pos <= 8, z3.Implies(n == 0, pos == 8))), ('bytes', z3.And(ef(i) >= 0, ef(i) < 256))]
+    out.append(('high-bits-zero', z3.And([z3.Implies(z3.And(n > 0, pos == k), ef(n - 1) < 2 ** k) for k in range(1, 9)])))
+    return out
+
+
+class WriteStream(Write):
+    """BitWriter.write against the abstract bit-stream view (the contract used at the call site in write_number):
+    T' = T + 1, bits below T unchanged, bit T = argument, representation invariant kept"""
+    name = 'BitWriter.write/stream-view'
+
+    def post(self, it, ctx, result, st):
+        o, n, ef, pos, b = st['o'], st['n'], st['ef'], st['pos'], st['b']
+        ba = o.fields['_bytearray']
+        pos1 = it.int_term(o.fields['_bit_pos'])
+        t, i = ctx.fresh(I, 't'), ctx.fresh(I, 'i')
+        for nm, f in write_stream_post(n, ef, pos, z3.If(b, 1, 0), ba.n, ba.elem, pos1, t, i):
+            yield (nm, f)
+
+
+def write_stream_post(n, ef, pos, bit, n1, ef1, pos1, t, i):
+    T0 = 8 * (n - 1) + pos
+    out = [('one-more-bit', 8 * (n1 - 1) + pos1 == T0 + 1),
+           ('earlier-bits-unchanged', z3.Implies(z3.And(t >= 0, t < T0), sbit(ef1, t) == sbit(ef, t))),
+           ('new-bit-is-the-argument', sbit(ef1, T0) == bit)]
+    out += [('RI/' + nm, f) for nm, f in writer_ri(n1, ef1, pos1, i)]
+    return out
+
+
+_WN = [0]
+
+
+def assume_forall(ctx, vars_, body):
+    """remember a universal fact; goals ask for its instances at their own skolem constants (instantiate_at). The
+    quantified formula itself is not handed to the solver: fewer hypotheses (sound), and no quantifier to diverge on"""
+    if not hasattr(ctx, 'universals'):
+        ctx.universals = []
+    ctx.universals.append((vars_, body))
+
+
+def instantiate_at(ctx, t, i):
+    """instances of every remembered universal at the stream position t and the byte index i (pure instantiation hints)"""
+    for vars_, body in getattr(ctx, 'universals', []):
+        sub = [(v, t if str(v).startswith('t!') else i) for v in vars_]
+        ctx.assume(z3.substitute(body, *sub))
+
+
+def install_write_contract(it):
+    """modular call rule for BitWriter.write inside write_number (body proved: C16/BitWriter.write/stream-view/*)"""
+    def handler(it_, fv, args, kwargs):
+        o = args[0]
+        bit = args[1] if len(args) > 1 else kwargs['bit']
+        ba = o.fields['_bytearray']
+        ctx = it_.ctx
+        n, ef, pos = ba.n, ba.elem, it_.int_term(o.fields['_bit_pos'])
+        isk = ctx.fresh(I, 'ipre')
+        instantiate_at(ctx, ctx.fresh(I, 'tpre'), isk)
+        for nm, f in writer_ri(n, ef, pos, isk):
+            ctx.check('write/pre/RI/' + nm, f)
+        bt = it_.truth(bit)
+        bt = z3.BoolVal(bt) if isinstance(bt, bool) else it_.as_bool_term(bt)
+        _WN[0] += 1
+        n1, pos1 = ctx.fresh(I, 'wn'), ctx.fresh(I, 'wpos')
+        ef1 = z3.Function(f'wbytes!{_WN[0]}', I, I)
+        t, i = z3.Int('t!w'), z3.Int('i!w')
+        for nm, f in write_stream_post(n, ef, pos, z3.If(bt, 1, 0), n1, ef1, pos1, t, i):
+            if nm.startswith(('earlier', 'RI/bytes')):
+                assume_forall(ctx, [t, i], f)
+            else:
+                ctx.assume(f)
+        o.fields['_bytearray'] = Bytes(n1, lambda j: ef1(j))
+        o.fields['_bit_pos'] = Sym(pos1)
+        return None
+    it.contracts[BIO + '::BitWriter.write'] = handler
+
+
+class WriteNumberLoop:
+    """for i in range(bit_length): self.write(bool((number >> i) & 1))   — after i iterations the stream is the old
+    stream followed by the i low bits of number"""
+
+    def __init__(self, c):
+        self.c = c
+
+    def applies(self, it, env, iterable):
+        return True
+
+    def havoc(self, it, env):
+        _WN[0] += 1
+        ctx = it.ctx
+        o = env['self']
+        ef1 = z3.Function(f'lbytes!{_WN[0]}', I, I)
+        o.fields['_bytearray'] = Bytes(ctx.fresh(I, 'ln'), lambda j: ef1(j))
+        o.fields['_bit_pos'] = Sym(ctx.fresh(I, 'lpos'))
+
+    def _f(self, it, env, k, t, i):
+        st = self.c.st
+        n, ef, pos, num = st['n'], st['ef'], st['pos'], st['num']
+        o = env['self']
+        ba = o.fields['_bytearray']
+        n1, ef1, pos1 = ba.n, ba.elem, it.int_term(o.fields['_bit_pos'])
+        T0 = 8 * (n - 1) + pos
+        out = [('length', 8 * (n1 - 1) + pos1 == T0 + k),
+               ('earlier-bits-unchanged', z3.Implies(z3.And(t >= 0, t < T0), sbit(ef1, t) == sbit(ef, t))),
+               ('written-bits-are-the-low-bits', z3.Implies(z3.And(t >= T0, t < T0 + k), sbit(ef1, t) == (num / Pow2(t - T0)) % 2))]
+        out += [('RI/' + nm, f) for nm, f in writer_ri(n1, ef1, pos1, i)]
+        return out
+
+    def inv(self, it, env, k):
+        t, i = it.ctx.fresh(I, 'tl'), it.ctx.fresh(I, 'il')
+        instantiate_at(it.ctx, t, i)
+        return self._f(it, env, k, t, i)
+
+    def inv_assume(self, it, env, k):
+        t, i = z3.Int('t!l'), z3.Int('i!l')
+        out = []
+        for nm, f in self._f(it, env, k, t, i):
+            if nm.startswith(('earlier', 'written', 'RI/bytes')):
+                assume_forall(it.ctx, [t, i], f)
+            else:
+                out.append((nm, f))
+        return out
+
+
+def _pow2_background(self, it):
+    from ..pyvc.lib import pow2_axioms
+    return pow2_axioms([])
+
+
+class WriteNumberAny(Write):
+    background = _pow2_background
+    """write_number(number, k) for EVERY k >= 0 on an arbitrary writer state: raises BitIOError iff number is outside
+    [0, 2^k) (writer untouched); otherwise the stream grows by exactly k bits, the old bits are unchanged, bit T0 + j
+    is bit j of number (j < k), and the representation invariant is kept"""
+    qualname = 'BitWriter.write_number'
+    name = 'BitWriter.write_number/every-width'
+
+    def setup(self, it, ctx):
+        args, kw, st = Write.setup(self, it, ctx)
+        num, k = z3.Int('number'), z3.Int('k')
+        ctx.assume(k >= 0)
+        st['num'], st['k'] = num, k
+        self.st = st
+        install_write_contract(it)
+        it.loop_specs[(BIO + '::BitWriter.write_number', 1)] = WriteNumberLoop(self)
+        return [args[0], Sym(num), Sym(k)], {}, st
+
+    def post(self, it, ctx, result, st):
+        o, n, ef, pos, num, k = st['o'], st['n'], st['ef'], st['pos'], st['num'], st['k']
+        ba = o.fields['_bytearray']
+        pos1 = it.int_term(o.fields['_bit_pos'])
+        T0 = 8 * (n - 1) + pos
+        t, i = ctx.fresh(I, 't'), ctx.fresh(I, 'i')
+        instantiate_at(ctx, t, i)
+        yield ('accepted-only-in-range', z3.And(num >= 0, num < Pow2(k)))
+        yield ('k-more-bits', 8 * (ba.n - 1) + pos1 == T0 + k)
+        yield ('earlier-bits-unchanged', z3.Implies(z3.And(t >= 0, t < T0), sbit(ba.elem, t) == sbit(ef, t)))
+        yield ('bit-j-of-number-at-T0+j', z3.Implies(z3.And(t >= T0, t < T0 + k), sbit(ba.elem, t) == (num / Pow2(t - T0)) % 2), {'witness': 'number-bits'})
+        for nm, f in writer_ri(ba.n, ba.elem, pos1, i):
+            yield ('RI/' + nm, f)
+
+    def on_raise(self, it, ctx, exc, st):
+        nme = exc.cls.name if isinstance(exc, Obj) else repr(exc)
+        num, k = st['num'], st['k']
+        if nme == 'BitIOError':
+            yield ('rejected-only-out-of-range', z3.Or(num < 0, num >= Pow2(k)), {'raised': nme})
+            ba = st['o'].fields['_bytearray']
+            yield ('writer-untouched', z3.And(ba.n == st['n'], it.int_term(st['o'].fields['_bit_pos']) == st['pos']))
+        else:
+            yield ('no-other-raise', z3.BoolVal(False), {'raised': nme, 'witness': 'raises-' + nme})
+
+
+RSf = z3.Function('RS', I, I)       # ghost spec function of read_number: RS(j) = sum_{q<j} streambit(T0+q) * 2^q
+
+
+class ReadNumberLoop:
+    """for i in range(bit_length): bit = self.read(); number |= bit << i"""
+
+    def __init__(self, c):
+        self.c = c
+
+    def applies(self, it, env, iterable):
+        return True
+
+    def havoc(self, it, env):
+        ctx = it.ctx
+        o = env['self']
+        o.fields['_byte_pos'] = Sym(ctx.fresh(I, 'lbp'))
+        o.fields['_bit_pos'] = Sym(ctx.fresh(I, 'lpos'))
+        env['number'] = Sym(ctx.fresh(I, 'lnum'))
+
+    def inv(self, it, env, k):
+        st = self.c.st
+        n, ef, bp, pos = st['n'], st['ef'], st['bp'], st['pos']
+        o = env['self']
+        bp1, pos1 = it.int_term(o.fields['_byte_pos']), it.int_term(o.fields['_bit_pos'])
+        num = it.int_term(env['number'])
+        T0 = 8 * bp + pos
+        return [('position', z3.And(8 * bp1 + pos1 == T0 + k, pos1 >= 0, pos1 <= 7, bp1 >= 0)),
+                ('position/byte-and-bit', z3.And(bp1 == (T0 + k) / 8, pos1 == (T0 + k) % 8)),       # implied by 'position'; stated to spare the solver the div/mod step
+                ('number-is-the-partial-sum', num == RSf(k)),
+                ('number-below-2^i', z3.And(num >= 0, num < Pow2(k))),
+                ('reads-were-inside-data', z3.Implies(k > 0, T0 + k <= 8 * n))]
+
+
+class ReadNumberAny(Read):
+    """read_number(k) for EVERY k >= 0 on an arbitrary reader state: returns RS(k) = sum_{j<k} streambit(T0+j) * 2^j (the
+    next k bits as a little-endian number, in [0, 2^k)), advances by exactly k bits, never leaves the data; raises
+    BitIOError exactly when fewer than k bits are left"""
+    background = _pow2_background
+    qualname = 'BitReader.read_number'
+    name = 'BitReader.read_number/every-width'
+
+    def setup(self, it, ctx):
+        args, kw, st = Read.setup(self, it, ctx)
+        k = z3.Int('k')
+        ctx.assume(k >= 0)
+        st['k'] = k
+        self.st = st
+        T0 = 8 * st['bp'] + st['pos']
+        j = z3.Int('j!rs')
+        # definition of the ghost spec function (recursion on j)
+        ctx.assume(RSf(0) == 0)
+        ctx.assume(z3.ForAll([j], z3.Implies(j >= 0, RSf(j + 1) == RSf(j) + z3.If(sbit(st['ef'], T0 + j) == 1, Pow2(j), 0)), patterns=[RSf(j + 1)]))
+        it.loop_specs[(BIO + '::BitReader.read_number', 1)] = ReadNumberLoop(self)
+        return [args[0], Sym(k)], {}, st
+
+    def post(self, it, ctx, result, st):
+        o, bp, pos, n, k = st['o'], st['bp'], st['pos'], st['n'], st['k']
+        r = it.int_term(result)
+        T0 = 8 * bp + pos
+        bp1, pos1 = it.int_term(o.fields['_byte_pos']), it.int_term(o.fields['_bit_pos'])
+        yield ('value-is-the-next-k-bits-little-endian', r == RSf(k), {'witness': 'number-bits'})
+        yield ('advances-by-k', z3.And(8 * bp1 + pos1 == T0 + k, pos1 >= 0, pos1 <= 7))
+        yield ('only-inside-data', z3.Implies(k > 0, T0 + k <= 8 * n))
+        yield ('result-in-range', z3.And(r >= 0, r < Pow2(k)))
+
+    def on_raise(self, it, ctx, exc, st):
+        nme = exc.cls.name if isinstance(exc, Obj) else repr(exc)
+        if nme == 'BitIOError':
+            yield ('raises-only-when-fewer-than-k-bits-left', 8 * st['bp'] + st['pos'] + st['k'] > 8 * st['n'], {'raised': nme})
+        else:
+            yield ('no-other-raise', z3.BoolVal(False), {'raised': nme, 'witness': 'raises-' + nme})
+
+
+def round_trip_lemmas(pv, widths):
+    """the two contracts compose: the number read back from the k bits that write_number(n, k) appended is n
+    (sum_i ((n div 2^i) mod 2) * 2^i = n for 0 <= n < 2^k)"""
+    n = z3.Int('n')
+    for k in widths:
+        pv.add_raw(f'C16/round-trip/read_number(write_number(n,{k}))=n', 'BitWriter.write_number+BitReader.read_number', [n >= 0, n < 2 ** k],
+                   z3.Sum([((n / (2 ** i)) % 2) * (2 ** i) for i in range(k)] + [z3.IntVal(0)]) == n, meta={'witness': 'round-trip'})
+
+
 def table_obligations(rep, pv, it):
     m = it.load_module('cirbo.circuits_db.circuits_encoding')
     g2i = m.env['_gate_type_to_int']
@@ -201,14 +503,28 @@ def run(rep):
     rep.trusted_base = list(STD_TRUSTED)
     for a in STD_ASSUME:
         rep.assume(a)
-    rep.assume('the loops of write_number / read_number, record framing of binary_dict_io, word-size adequacy and the per-circuit round trip are covered by the bounded stand-in only')
+    rep.assume('write_number / read_number are proved for EVERY width k >= 0 by loop invariants over the bit-stream view (and once more, with counter-models for broken variants, for the widths {0,1,2,3,7,8,9,12} with the loops unrolled); '
+               'that reading back what write_number(n, k) wrote gives n (sum_j (n div 2^j mod 2) 2^j = n mod 2^k) is the Lean lemma read_write_number of lean/Background.lean for every k and an SMT obligation for the listed widths; '
+               'record framing of binary_dict_io, word-size adequacy and the per-circuit round trip are covered by the bounded stand-in only')
+    rep.assume('nonlinear terms: number >> k is number div pow2(k) with pow2 axiomatised (pow2(0)=1, pow2(i+1)=2 pow2(i), pow2(i)>=1); precondition k >= 0 (a negative width raises ValueError in CPython)')
     rep.assume('background lemma: x | (b*2^k) = x + b*2^k when 0 <= x < 2^k (its side condition is an obligation)')
     it = new_interp()
     pv = Prover(rep, it, 'C16')
     pv.run_contract(Write())
     pv.run_contract(Read())
-    for bits in (0, 1, 2, 3, 7, 8, 9, 12):
+    widths = (0, 1, 2, 3, 7, 8, 9, 12)
+    for bits in widths:
         pv.run_contract(WriteNumber(bits))
+    for bits in widths:
+        pv.run_contract(ReadNumber(bits))
+    round_trip_lemmas(pv, widths)
+    # every width: loop invariants over the abstract bit-stream view; write() by its (proved) stream contract
+    pv.run_contract(WriteStream())
+    pv.run_contract(WriteNumberAny())
+    it.contracts.clear()
+    it.loop_specs.clear()
+    pv.run_contract(ReadNumberAny())
+    it.loop_specs.clear()
     it.contracts.clear()
     table_obligations(rep, pv, it)
     x = z3.Int('x')
@@ -216,4 +532,4 @@ def run(rep):
     refuted = pv.discharge(env.NPROC)
     finish_refuted(rep, pv, refuted)
     run_bounded(rep, 'C16', quick)
-    rep.extra['explanation'] = 'single-step contracts of the bit writer/reader, the range check of write_number and the code tables proved from the real source; streams, records and circuits: bounded stand-in.'
+    rep.extra['explanation'] = 'single-step contracts of the bit writer/reader, write_number / read_number for every width (loop invariants) and their round trip, and the code tables proved from the real source; records and circuits: bounded stand-in.'
